@@ -6,7 +6,10 @@ import "verif/checker/internal/gen"
 
 func flagFlow(c *Ctx, flagName string) { gen.CheckFlagBinding(c.Run, c.Prog, flagName) }
 
-func genMap(c *Ctx) { gen.CheckKinds(c.Run, c.Prog) }
+func genMap(c *Ctx) {
+	gen.CheckKinds(c.Run, c.Prog)
+	lookupTable(c)
+}
 
 func genGeneric(c *Ctx) {
 	gen.CheckKinds(c.Run, c.Prog)
@@ -32,4 +35,5 @@ func genCompile(c *Ctx) {
 	if na := gen.CheckAddVar(c.Run, c.Prog); na != nil {
 		gen.CheckReserved(c.Run, c.Prog, na, freeNameList(c, "G-RESERVED"), false)
 	}
+	gen.CheckVarNameOwners(c.Run, c.Prog)
 }
